@@ -292,3 +292,143 @@ func sweepAuthOnlyInConnect(g *G, idx funcIndex, cs *contractSet, prop string) (
 	}
 	return obls, []string{"A-SWEEP-CLIENT: CONNECT and AUTH packets are built only by packets1 constructors or composite literals (no reflection) in package client"}, nil
 }
+
+// sweepIsolation (C15): sessions share their configuration (*handlerConfig,
+// *GatewayConfig), the predefined-topic map, package-level variables and the
+// accept loop. Everything else a session touches hangs off its own handler
+// (newHandler's contract: fresh state). Decided on the SSA of package gateway:
+//
+//	sweep.shared_config_write.N   no store through a *handlerConfig / *GatewayConfig
+//	                              except into the struct literal a function has
+//	                              just allocated itself;
+//	sweep.shared_topics_write.N   no update of a topics.PredefinedTopics map (or of
+//	                              its inner maps) and no call of its Add / Merge;
+//	sweep.global_write.N          no store to a package-level variable outside init;
+//	sweep.per_connection_capture.N  the goroutine started per accepted connection
+//	                              captures only variables allocated inside the
+//	                              accept loop (its own connection, handler, logger).
+func sweepIsolation(g *G, idx funcIndex, cs *contractSet, prop string) ([]*Obligation, []string, error) {
+	var keys []string
+	for k := range idx {
+		if strings.HasPrefix(k, "gateway.") {
+			keys = append(keys, k)
+		}
+	}
+	sort.Strings(keys)
+	if len(keys) == 0 {
+		return nil, nil, fmt.Errorf("sweep: no function of package gateway loaded")
+	}
+	var obls []*Obligation
+	mk := func(fn *ssa.Function, name string, in ssa.Instruction, ok bool, note string) {
+		pp := g.fset.Position(in.Pos())
+		o := &Obligation{Name: funcKey(fn) + "#" + name, Kind: "sweep", Fn: funcKey(fn), Tags: []string{prop},
+			Pos:  fmt.Sprintf("%s:%d", strings.TrimPrefix(pp.Filename, repoRoot+"/"), pp.Line),
+			Goal: TTrue, Solver: "syntactic", Result: "unsat", Note: note}
+		if !ok {
+			o.Goal, o.Result, o.Raw = TFalse, "sat", note
+		}
+		obls = append(obls, o)
+	}
+	isCfg := func(t types.Type) bool {
+		n, ok := namedIn(t, repoPrefix+"/gateway")
+		return ok && (n == "handlerConfig" || n == "GatewayConfig")
+	}
+	isTopics := func(t types.Type) bool {
+		if n, ok := namedIn(t, repoPrefix+"/topics"); ok && n == "PredefinedTopics" {
+			return true
+		}
+		if m, ok := t.Underlying().(*types.Map); ok {
+			if b, ok := m.Key().Underlying().(*types.Basic); ok && b.Kind() == types.Uint16 {
+				if e, ok := m.Elem().Underlying().(*types.Basic); ok && e.Kind() == types.String {
+					return true
+				}
+			}
+		}
+		return false
+	}
+	sawAccept := false
+	counted := 0
+	for _, k := range keys {
+		fn := idx[k]
+		if fn.Blocks == nil || strings.HasSuffix(g.fset.Position(fn.Pos()).Filename, "_test.go") {
+			continue
+		}
+		nc, nt, ng, np := 0, 0, 0, 0
+		inLoop := func(b *ssa.BasicBlock) bool {
+			// b lies on a cycle of the control-flow graph
+			seen := map[*ssa.BasicBlock]bool{}
+			var stack []*ssa.BasicBlock
+			stack = append(stack, b.Succs...)
+			for len(stack) > 0 {
+				x := stack[len(stack)-1]
+				stack = stack[:len(stack)-1]
+				if x == b {
+					return true
+				}
+				if seen[x] {
+					continue
+				}
+				seen[x] = true
+				stack = append(stack, x.Succs...)
+			}
+			return false
+		}
+		for _, b := range fn.Blocks {
+			for _, in := range b.Instrs {
+				switch x := in.(type) {
+				case *ssa.Store:
+					counted++
+					if fa, ok := x.Addr.(*ssa.FieldAddr); ok && isCfg(fa.X.Type()) {
+						_, own := fa.X.(*ssa.Alloc)
+						mk(fn, fmt.Sprintf("sweep.shared_config_write.%d", nc), in, own,
+							"a field of the configuration shared by all sessions is written: one session's action would change what every other session does")
+						nc++
+					}
+					if gl, ok := x.Addr.(*ssa.Global); ok && fn.Name() != "init" {
+						mk(fn, fmt.Sprintf("sweep.global_write.%d", ng), in, false, "package-level variable "+gl.Name()+" is written outside init: state shared by all sessions")
+						ng++
+					}
+				case *ssa.MapUpdate:
+					if isTopics(x.Map.Type()) {
+						mk(fn, fmt.Sprintf("sweep.shared_topics_write.%d", nt), in, false, "the predefined-topic map shared by all sessions is updated")
+						nt++
+					}
+				case ssa.CallInstruction:
+					if f := x.Common().StaticCallee(); f != nil && f.Signature.Recv() != nil && isTopics(f.Signature.Recv().Type()) && (f.Name() == "Add" || f.Name() == "Merge") {
+						mk(fn, fmt.Sprintf("sweep.shared_topics_write.%d", nt), in, false, "the predefined-topic map shared by all sessions is updated ("+f.Name()+")")
+						nt++
+					}
+					if goi, ok := in.(*ssa.Go); ok && strings.HasSuffix(k, ".ListenAndServe") {
+						if mc, ok := goi.Call.Value.(*ssa.MakeClosure); ok && inLoop(b) {
+							sawAccept = true
+							for _, bnd := range mc.Bindings {
+								if a, ok := bnd.(*ssa.Alloc); ok {
+									// allocated per iteration, or shared but never assigned inside the loop (e.g. ctx)
+									okCap := inLoop(a.Block())
+									if !okCap {
+										okCap = true
+										for _, ref := range *a.Referrers() {
+											if st, isSt := ref.(*ssa.Store); isSt && st.Addr == ssa.Value(a) && inLoop(st.Block()) {
+												okCap = false
+											}
+										}
+									}
+									mk(fn, fmt.Sprintf("sweep.per_connection_capture.%d", np), in, okCap,
+										"the per-connection goroutine captures variable "+a.Comment+" that is shared by all iterations of the accept loop: a session would use (or close) another peer's connection or handler")
+									np++
+								}
+							}
+						}
+					}
+				}
+			}
+		}
+	}
+	if !sawAccept {
+		return nil, nil, fmt.Errorf("sweep: no per-connection goroutine found in the accept loop of ListenAndServe (restructured?)")
+	}
+	if len(obls) == 0 || counted == 0 {
+		return nil, nil, fmt.Errorf("sweep: nothing to check in package gateway")
+	}
+	return obls, []string{"A-SWEEP-ISOLATION: shared objects are written only through SSA stores, map updates and the PredefinedTopics methods (no reflection, unsafe, or writes through slices that alias configuration data: append into spare capacity of a shared slice is not seen, A-APPEND)"}, nil
+}
